@@ -1,6 +1,10 @@
 """C20 — byte counters are exact and monotone."""
+import json
+import re
+
 from . import common as C
 from . import links as L
+from . import tcp as T
 from .p_C01 import gen_toxic
 
 PID = "C20"
@@ -43,17 +47,225 @@ def oracle(case, res):
     return None
 
 
+# ---------------------------------------------------------------- labels: real proxies, real sockets, GET /metrics
+def gen_label_history(rng, g):
+    """a history of phases on one server: connections (sequential or concurrent) through one or two proxies, a scrape after each
+    phase, and between phases an in-place update of upstream and/or listen address, a disable/enable, or nothing"""
+    b = T.port_base(g)
+    ups = [b, b + 1]
+    listens = {"p": [b + 2, b + 3], "q": [b + 4, b + 5]}
+    ops = [{"op": "upstream", "id": "u0", "port": ups[0], "mode": "echo"}, {"op": "upstream", "id": "u1", "port": ups[1], "mode": "echo"}]
+    proxies = ["p"] + (["q"] if rng.chance(1, 3) else [])
+    cfg = {}
+    hist = []                                         # the abstract history the oracle and the model replay
+    for name in proxies:
+        cfg[name] = {"listen": listens[name][0], "up": ups[rng.below(2)]}
+        ops.append(T.api("POST", "/proxies", {"name": name, "listen": "127.0.0.1:%d" % cfg[name]["listen"], "upstream": "127.0.0.1:%d" % cfg[name]["up"]}))
+        hist.append({"ev": "config", "proxy": name, **cfg[name]})
+    if rng.chance(1, 3):
+        ops.append(T.api("POST", "/proxies/p/toxics", {"type": "latency", "attributes": {"latency": 5}}))
+    cid = 0
+    nph = rng.range(2, 4)
+    for ph in range(nph):
+        conns = []
+        for _ in range(rng.range(1, 3)):
+            name = rng.choice(proxies)
+            cid += 1
+            conns.append(("c%d" % cid, name, rng.choice([0, 1, 100, 5000, 40000])))
+        concurrent = rng.chance(1, 2)
+        seq = [[c] for c in conns] if not concurrent else [conns]
+        for grp in seq:
+            for c, name, n in grp:
+                ops.append({"op": "dial", "id": c, "addr": "127.0.0.1:%d" % cfg[name]["listen"]})
+                hist.append({"ev": "start", "conn": c, "proxy": name})
+            for c, name, n in grp:
+                if n:
+                    ops.append({"op": "send", "id": c, "n": n})
+            for c, name, n in grp:
+                if n:
+                    ops.append({"op": "recv", "id": c, "up": c, "n": n, "ms": 3000})
+            if concurrent and rng.chance(1, 3) and ph + 1 < nph:
+                # an update while these connections are open: they keep the labels they started with
+                name = grp[0][1]
+                cfg[name] = dict(cfg[name], up=ups[1] if cfg[name]["up"] == ups[0] else ups[0])
+                ops.append(T.api("POST", "/proxies/" + name, {"upstream": "127.0.0.1:%d" % cfg[name]["up"]}))
+                hist.append({"ev": "config", "proxy": name, **cfg[name], "while_open": True})
+                # the update restarts the proxy and closes its connections: the open ones end here (the bytes relayed so far are counted)
+            for c, name, n in grp:
+                ops.append({"op": "close", "id": c})
+                hist.append({"ev": "end", "conn": c, "bytes": n})
+        ops.append({"op": "sleep", "ms": 120})
+        ops.append({"op": "metrics"})
+        hist.append({"ev": "scrape"})
+        if ph + 1 < nph:
+            name = rng.choice(proxies)
+            k = rng.below(5)
+            if k == 0:
+                cfg[name] = dict(cfg[name], up=ups[1] if cfg[name]["up"] == ups[0] else ups[0])
+                ops.append(T.api("POST", "/proxies/" + name, {"upstream": "127.0.0.1:%d" % cfg[name]["up"]}))
+            elif k == 1:
+                cfg[name] = dict(cfg[name], listen=[x for x in listens[name] if x != cfg[name]["listen"]][0])
+                ops.append(T.api("POST", "/proxies/" + name, {"listen": "127.0.0.1:%d" % cfg[name]["listen"]}))
+            elif k == 2:
+                cfg[name] = {"listen": [x for x in listens[name] if x != cfg[name]["listen"]][0], "up": ups[1] if cfg[name]["up"] == ups[0] else ups[0]}
+                ops.append(T.api("POST", "/proxies/" + name, {"listen": "127.0.0.1:%d" % cfg[name]["listen"], "upstream": "127.0.0.1:%d" % cfg[name]["up"]}))
+            elif k == 3:
+                ops.append(T.api("POST", "/proxies/" + name, {"enabled": False}))
+                ops.append(T.api("POST", "/proxies/" + name, {"enabled": True}))
+            if k <= 2:
+                hist.append({"ev": "config", "proxy": name, **cfg[name]})
+    return {"ops": ops, "group": g, "hist": hist}
+
+
+KEY = re.compile(r'toxiproxy_proxy_(received|sent)_bytes_total\{direction="(\w+)",listener="([^"]*)",proxy="([^"]*)",upstream="([^"]*)"\}')
+
+
+def expected_counters(hist):
+    """independent oracle: every cleanly ended connection adds its bytes, in both directions (echo upstream), to the series labelled
+    with the proxy's name, listen address and upstream AS THEY WERE WHEN THE CONNECTION STARTED; returns the expectation per scrape"""
+    cfg, open_, tot, out = {}, {}, {}, []
+    for e in hist:
+        if e["ev"] == "config":
+            cfg[e["proxy"]] = ("127.0.0.1:%d" % e["listen"], e["proxy"], "127.0.0.1:%d" % e["up"])
+        elif e["ev"] == "start":
+            open_[e["conn"]] = cfg[e["proxy"]]
+        elif e["ev"] == "end":
+            lab = open_.pop(e["conn"])
+            for metric in ("received", "sent"):
+                for d in ("upstream", "downstream"):
+                    k = (metric, d) + lab
+                    tot[k] = tot.get(k, 0) + e["bytes"]
+        elif e["ev"] == "scrape":
+            out.append(dict(tot))
+    return out
+
+
+def judge_labels(c, r):
+    """None: holds; ("skip", why): inconclusive; (key, what): violated"""
+    if T.env_broken(r):
+        return ("skip", "ports taken")
+    if isinstance(r, dict):
+        return ("crash", "the process crashed during a metrics history")
+    if any(x["op"] in ("dial", "send", "recv", "api") and not x.get("ok") for x in r):
+        return ("skip", "a connection did not relay as scripted (not a clean end)")
+    exp = expected_counters(c["hist"])
+    obs = []
+    for x in r:
+        if x["op"] == "metrics":
+            d = {}
+            for k, v in (x.get("metrics") or {}).items():
+                m = KEY.match(k)
+                if m:
+                    d[(m.group(1), m.group(2), m.group(3), m.group(4), m.group(5))] = int(v)
+            obs.append(d)
+    prev = {}
+    for j, (e, o) in enumerate(zip(exp, obs)):
+        for k in sorted(set(e) | set(o)):
+            if e.get(k, 0) != o.get(k, 0):
+                return ("labels", "scrape %d: %s_bytes_total{direction=%s, listener=%s, proxy=%s, upstream=%s} is %d, but the connections that started "
+                        "while the proxy had these labels relayed %d bytes" % ((j + 1, k[0], k[1], k[2], k[3], k[4], o.get(k, 0), e.get(k, 0))))
+            if o.get(k, 0) < prev.get(k, 0):
+                return ("monotone", "scrape %d: counter %s decreased from %d to %d" % (j + 1, k, prev[k], o.get(k, 0)))
+        prev = o
+    return None
+
+
+def coq_history(c, r):
+    """the abstract history as [list mev] and the observed scrapes as [list (list (series * Z) * Z)]"""
+    pid = {"p": 0, "q": 1}
+    cid = lambda s: int(s[1:])
+    evs = []
+    for e in c["hist"]:
+        if e["ev"] == "config":
+            evs.append("MConfig %d %d %d" % (pid[e["proxy"]], e["listen"], e["up"]))
+        elif e["ev"] == "start":
+            evs.append("MStart %d %d" % (cid(e["conn"]), pid[e["proxy"]]))
+        elif e["ev"] == "end":
+            evs.append("MEnd %d %d %d %d %d" % ((cid(e["conn"]),) + (e["bytes"],) * 4))
+        else:
+            evs.append("MScrape")
+    obs = []
+    port = lambda a: int(a.rsplit(":", 1)[1])
+    for x in r:
+        if x["op"] == "metrics":
+            kv, tot = [], 0
+            for k, v in sorted((x.get("metrics") or {}).items()):
+                m = KEY.match(k)
+                if m and m.group(4) in pid:
+                    kv.append("((%s, %s, (%d, %d, %d)), %d)" % (C.coq_bool(m.group(1) == "sent"), C.coq_bool(m.group(2) == "downstream"),
+                                                               port(m.group(3)), pid[m.group(4)], port(m.group(5)), int(v)))
+                    tot += int(v)
+            obs.append("(%s, %d)" % (C.coq_list(kv), tot))
+    return "%s %s" % (C.coq_list(evs), C.coq_list(obs))
+
+
+def label_scenarios(ctx, proof):
+    rng = C.Rng(ctx.seed).fork("C20labels")
+    n = (18 if ctx.tier == "quick" else 600) * (1 if proof["build_ok"] else 4)
+    cases = [gen_label_history(rng, i % 6) for i in range(n)]
+    results = T.run_tcp(ctx, cases, "c20")
+    fails, judged, scrapes, updates = [], [], 0, 0
+    for i, (c, r) in enumerate(zip(cases, results)):
+        v = judge_labels(c, r)
+        if v and v[0] == "skip":
+            continue
+        judged.append(i)
+        scrapes += sum(1 for e in c["hist"] if e["ev"] == "scrape")
+        updates += sum(1 for e in c["hist"] if e["ev"] == "config") - 1
+        if v:
+            fails.append((v[0], v[1], {"kind": "failing-input", "tcp": True, "case": c, "observed": r}))
+    fails.sort(key=lambda f: len(f[2]["case"]["ops"]))
+    # the same histories through the counter model inside Coq
+    mism = []
+    comparable = [i for i in judged if not isinstance(results[i], dict)]
+    if comparable and C.coq_make(ctx, ["Run/MetricsRun.vo"])[0]:
+        for s0 in range(0, len(comparable), 150):
+            part = comparable[s0:s0 + 150]
+            body = "From TP Require Import Model.Prelude Model.Metrics Run.MetricsRun.\n"
+            for j, i in enumerate(part):
+                body += "Eval vm_compute in (%d, metrics_verdict %s).\n" % (j, coq_history(cases[i], results[i]))
+            rc, out = C.coq_eval(ctx, "c20_metrics_%d" % (s0 // 150), body)
+            if rc != 0:
+                raise C.BuildError("counter model evaluation failed:\n" + out[-1500:])
+            got = re.findall(r"=\s*\((\d+),\s*(-?\d+)\)", out)
+            if len(got) != len(part):
+                raise C.BuildError("counter model evaluation: expected %d results\n%s" % (len(part), out[-1500:]))
+            mism += [(part[int(j)], int(v)) for j, v in got if int(v) != 0]
+    failed_idx = set(id(f[2]["case"]) for f in fails)
+    only_model = [(i, v) for i, v in mism if id(cases[i]) not in failed_idx]
+    if only_model and not fails:
+        i, v = only_model[0]
+        fails.append(("labels-model", "the counter model and GET /metrics disagree at scrape %d of a history the oracle accepts (%d such histories)" % (v, len(only_model)),
+                      {"kind": "failing-input", "tcp": True, "case": cases[i], "observed": results[i]}))
+    return fails, {"label_histories": len(cases), "label_histories_judged": len(judged), "scrapes_compared": scrapes, "in_place_updates": updates,
+                   "label_histories_replayed_in_coq": len(comparable), "label_model_mismatches": len(mism)}
+
+
 def run(ctx):
     return L.run_link_property(
         ctx, PID, gen_cases, oracle,
         classify=lambda w: "sent-counter" if "sent counter" in w else ("received-counter" if "received counter" in w else "crash"),
         rule="random chains of preserving toxics, a third of them with a limit_data or timeout toxic, 0-6 writes of 1 B-96 KiB then close, "
-             "1-3 connections; counters read from the collectors after teardown; non-trivial = at least one byte sent; distinct by JSON",
+             "1-3 connections; counters read from the collectors after teardown; non-trivial = at least one byte sent; distinct by JSON; "
+             "plus histories on real proxies and sockets (1-2 proxies, 2-4 phases of sequential or concurrent connections of 0 B-40 KB through "
+             "an echo upstream, in-place updates of upstream / listen / both or disable+enable between and during phases) with GET /metrics "
+             "after each phase compared series by series with the bytes relayed under each label set",
         nontrivial=lambda c: sum(e.get("n", 0) for e in c["src"]) > 0,
         assumptions=["Prometheus counters add float64 exactly below 2^53 bytes",
                      "a connection whose reader is left blocked (finding F7, C15) never reports `received`: not a clean end in the sense of the property",
-                     "label values after a proxy update are checked on real proxies by the C03/C17 API runs"])
+                     "the label histories use toxics that neither drop nor truncate; dropping/truncating chains are judged on the link runs"],
+        side_findings=label_scenarios)
 
 
 def replay(ctx, path):
+    rp = json.load(open(path))
+    if rp.get("tcp"):
+        r = T.run_tcp(ctx, [rp["case"]], "c20_replay")[0]
+        v = judge_labels(rp["case"], r)
+        if v and v[0] != "skip":
+            print("VIOLATION property=%s replay=%s" % (PID, path))
+            print("  what:", v[1])
+            return 1
+        print("replay passes on the current tree" if not v else "replay inconclusive: " + v[1])
+        return 0
     return L.replay_link(ctx, PID, path, oracle)
